@@ -172,7 +172,7 @@ use self::trs::*;
                 ==> self.network.sp_compatible(#[trigger] self.sp_tour_of(provider).nodes@[p], self.type_of(receiver)), // @obl C01.type_guard.true_only_if_compatible
 //@end
 //@item solution/src/schedule/modifications.rs Schedule::update_train_formation : trusted
-//@param-type moved_nodes SeqIter<NodeIdx>
+//@param-type moved_nodes impl self::node_items::NodeItems
 //@retname r
 //@sig
     requires
